@@ -516,6 +516,19 @@ MapBlocksAct ==
        \E use \in Pick({"block_info", "block_id", "both"}) :
          Push([a |-> "MapBlocks", x |-> x, axis |-> ax, use |-> use], AddGlobalIndex(env[x], ax))
 
+\* map_blocks over TWO inputs of different rank with drop_axis and block_info (C20): f(a, b) sums a over the dropped axis
+\* and adds b (dropped axis 1: b is aligned with the kept axis) or b's total (dropped axis 2: b lies along the dropped
+\* axis and is handed over whole).  The function records block_info of BOTH inputs.
+MapBlocks2Act ==
+  /\ Allowed("MapBlocks2") /\ CanStep
+  /\ \E x \in Pick({h \in Live : Rank(env[h]) = 2 /\ env[h].kind = "i"}) :
+       \E y \in Pick({h \in Live : Rank(env[h]) = 1 /\ env[h].kind = "i" /\ env[h].shape[1] = env[x].shape[2]}) :
+         \E dax \in Pick({1, 2}) :
+           /\ env[x].shape[1] >= 1 /\ env[x].shape[2] >= 1
+           /\ Push([a |-> "MapBlocks2", x |-> x, y |-> y, drop |-> dax],
+                   IF dax = 1 THEN Binary("add", Reduce("sum", env[x], {1}, FALSE), env[y])
+                   ELSE Binary("add", Reduce("sum", env[x], {2}, FALSE), Reduce("sum", env[y], {1}, FALSE)))
+
 \* A per-block function whose result depends on WHICH elements share a block (it subtracts the block's first element):
 \* legal under map_blocks, whose contract is "the function runs on the blocks `.chunks` advertises".  The chunk grid is the
 \* replayer's choice, so the specification cannot give the value: the denotation is a PLACEHOLDER (shape and kind only) and
@@ -567,6 +580,12 @@ OutUfuncAct ==
                   Binary(op, env[x], Scalar(IF env[x].kind = "f" THEN Q(2) ELSE 2, env[x].kind)))
        \/ \E y \in Pick({h \in Live \ {x} : env[h].shape = env[x].shape /\ env[h].kind = env[x].kind}) :
             InPlace([a |-> "OutUfunc", x |-> x, op |-> op, y |-> y, scalar |-> 0], x, Binary(op, env[x], env[y]))
+       \* np.op(s, 3, where=(s > t), out=x): x keeps its old values where the mask is false (the out operand is an INPUT)
+       \/ \E s \in Pick({h \in Live \ {x} : env[h].shape = env[x].shape /\ env[h].kind = env[x].kind}) : \E t \in Pick({0, 2}) :
+            LET k == env[x].kind
+                M == Binary("lt", Scalar(IF k = "f" THEN Q(t) ELSE t, k), env[s])
+                R == Binary(op, env[s], Scalar(IF k = "f" THEN Q(3) ELSE 3, k))
+            IN InPlace([a |-> "OutUfunc", x |-> x, op |-> op, y |-> s, scalar |-> 3, where |-> t], x, Where(M, R, env[x]))
 
 (***************************************************************************)
 (* Unknown chunk sizes (C28): boolean-mask selection gives a 1-D array of  *)
@@ -674,7 +693,7 @@ PersistAct ==
 
 Next ==
   \/ Start
-  \/ RechunkSpecAct \/ MapBlocksAct \/ BlockFirstAct \/ IndexNone \/ DiamondAct \/ SetItemAct \/ MaskSetAct \/ OutUfuncAct \/ MaskSelectAct \/ UnknownAct \/ ComputeChunkSizesAct \/ RandomAct \/ AdvIndexAct \/ DiagonalAct \/ StackMismatchAct \/ OverlapAct \/ PersistAct
+  \/ RechunkSpecAct \/ MapBlocksAct \/ BlockFirstAct \/ IndexNone \/ DiamondAct \/ MapBlocks2Act \/ SetItemAct \/ MaskSetAct \/ OutUfuncAct \/ MaskSelectAct \/ UnknownAct \/ ComputeChunkSizesAct \/ RandomAct \/ AdvIndexAct \/ DiagonalAct \/ StackMismatchAct \/ OverlapAct \/ PersistAct
   \/ Index \/ Elemwise \/ UnaryAct \/ AsTypeAct \/ TransposeAct \/ ReshapeAct \/ ExpandSqueeze \/ FlipRoll
   \/ ConcatStack \/ RechunkAct \/ ReduceAct \/ ArgReduce \/ CumulativeAct \/ DiffAct \/ WhereAct \/ TakeAct
   \/ BroadcastAct \/ WindowAct \/ WindowReduce \/ DotAct \/ PadRepeat \/ TopKAct
